@@ -271,6 +271,19 @@ _WAVE6 = {
 for _c in CHECKS:
     if _c["property_id"] in _WAVE6:
         _c["text"] = _c["text"] + " " + _WAVE6[_c["property_id"]]
+_WAVE7 = {
+ "C01": "Slices across a leap second; coherent crop against the band the channels actually cover (bottom / top alignment).",
+ "C03": "Whole-sample shifts through inexact float products on BOTH sides of the whole sample (within 1e-8); shift arrays whose shape does not match the sample shape must be refused.",
+ "C04": "Whole-bin shifts a rounding error above or below the whole bin zero exactly that many bins; mismatching shift shapes refused.",
+ "C05": "Crop computed from the covered band for every alignment.",
+ "C06": "An empty result (not an exception) when no instant has all channels in range.",
+ "C07": "Dividends a hair below (1e-9 .. 1e-17) and above multiples of the divisor, divisors of either sign as Phase and as Quantity, quotients from -5 to 2^20.",
+ "C08": "Times 20 - 300 ns past every junction of touching / overlapping spans; p(time_at(ph)) compared with ph in cycles, also on a dense family late in the 24 h interval of the shipped file and in 8-day contiguous files; subsets with no rows.",
+ "C10": "Axes outside -ndim .. ndim-1; channel widths differing by 9e-6 on very wide pieces.",
+}
+for _c in CHECKS:
+    if _c["property_id"] in _WAVE7:
+        _c["text"] = _c["text"] + " " + _WAVE7[_c["property_id"]]
 _ALL = ["C%02d" % i for i in range(1, 21)]
 NOT_APPLICABLE = [{"property_id": p, "reason": "check not yet built in this session (planned in DESIGN.md; no claim made yet)"}
                   for p in _ALL if p not in {c["property_id"] for c in CHECKS}]
